@@ -67,6 +67,23 @@ native program (native/src/bin/f_line_hdr_<n>.rs):
   O-line-hdr-2  a v5 header with format_count == 0 and entry count == 0 (allowed by the text of 6.2.4 items 9/11) is
                 rejected with MissingFileEntryFormatPath; the exactly-one-path check is what makes the unwraps safe.
 
+Self-attack (scratch copies of /repo/src, `GIMLI_REPO=.. python3 vx/run.py line_hdr` for m1-m5, the same generator + Verus on
+the touched function for the rest; every run: status ok, exit 1, the known finding + the listed obligations):
+  m1  FileEntryFormat::parse check relaxed to `format_count != 0 && path_count != 1`   -> [C04:entry-format][C01:entry-format-one-path]
+  m2  `line_range == 0` accepted                                       -> mid-point assert [C04:header-fields][C04:header-valid]
+  m3  maximum_operations_per_instruction read for version >= 3         -> mid-point assert [C04:header-fields] (max_ops / position)
+  m4  standard_opcode_lengths one byte short                           -> mid-point assert [C04:header-opcode-lengths]
+  m5  DW_FORM_data2 read as u8 (v5 directory_index)                    -> [C04:attr-data2], [C04:attr-len]
+  m6  v2-4 directory loop pushes the terminating empty string          -> loop invariant [C04:header-dirs-v4]
+  m7  DW_LNCT_timestamp stored into `size`                             -> loop invariant [C04:file-v5-timestamp]
+  m8  file entries decoded with the DIRECTORY entry format             -> [C01:path-unwrap] precondition + [C04:header-files-v5]
+  m9  `program_buf.skip(header_length)` dropped / m10 `rest.truncate(header_length)` dropped -> [C04:header-fields][C04:header-program]
+  m11 parse_directory_v5 keys the path on DW_LNCT_directory_index      -> [C04:directory-v5][C01:path-unwrap]
+  m12 LineSequence.start := end address                                -> [C04:sequence-bounds]
+  m13 `instructions` cursor not advanced after a sequence              -> [C04:sequences-slices]
+  m14 v2-4 file loop does not stop at the empty name                   -> [C04:header-files-v4]
+  m15 v5 directories_count read as u8                                  -> [C04:header-dirs-v5]
+
 Not decided here: the row-level functional statement (rows == iterate line_step) and with it "resuming a sequence yields
 the rows of the straight run" beyond slices + fresh registers ([C04:resume] of batch line); start <= end of a sequence
 (false on the pinned tree: F-line-3); LineProgramHeader accessors (directory(), file(), file_has_*); the Section /
